@@ -172,6 +172,7 @@ func (s *Session) execLocked(sql string, args []interface{}, je *JournalEntry) [
 			s.releaseLocks(s.tx)
 		}
 		s.tx = newTx()
+		s.tx.readOnly = strings.Contains(u, "READ ONLY")
 		return []result{{}}
 	case u == "COMMIT":
 		je.Kind = "COMMIT"
@@ -235,6 +236,9 @@ func (s *Session) execLocked(sql string, args []interface{}, je *JournalEntry) [
 	}
 	if strings.Contains(u, "INFORMATION_SCHEMA") {
 		return s.execInfoSchema(u, args, je)
+	}
+	if rs, ok := s.execDDL(q, u, je); ok {
+		return rs
 	}
 	p := aparser.New()
 	stmts, _, err := p.Parse(q, "", "")
@@ -460,6 +464,9 @@ func (s *Session) execStmt(st ast.StmtNode, args []interface{}, je *JournalEntry
 
 // autoTx wraps a DML statement: statement-level atomicity + autocommit when no tx is open.
 func (s *Session) autoTx(je *JournalEntry, f func() result) result {
+	if s.inTx() && s.tx.readOnly {
+		return one(errf(1792, "25006", "Cannot execute statement in a READ ONLY transaction."))
+	}
 	auto := !s.inTx()
 	if auto {
 		s.tx = newTx()
@@ -997,4 +1004,221 @@ func (s *Session) execDelete(x *ast.DeleteStmt, args []interface{}, now time.Tim
 		s.tx.changes = append(s.tx.changes, RowChange{Table: t.Name, Key: k, Before: old})
 	}
 	return result{affected: uint64(len(rows))}
+}
+
+// ---- minimal DDL (the forms the harness generates); every DDL statement commits an open transaction first ----
+
+var (
+	reCreateTable = regexp.MustCompile(`(?is)^CREATE\s+TABLE\s+(IF\s+NOT\s+EXISTS\s+)?` + "`?" + `(\w+)` + "`?" + `\s*\((.*)\)\s*$`)
+	reDropTable   = regexp.MustCompile(`(?is)^DROP\s+TABLE\s+(IF\s+EXISTS\s+)?` + "`?" + `(\w+)` + "`?" + `\s*$`)
+	reTruncate    = regexp.MustCompile(`(?is)^TRUNCATE\s+(TABLE\s+)?` + "`?" + `(\w+)` + "`?" + `\s*$`)
+	reAlterAdd    = regexp.MustCompile(`(?is)^ALTER\s+TABLE\s+` + "`?" + `(\w+)` + "`?" + `\s+ADD\s+(COLUMN\s+)?(.*)$`)
+	reColDef      = regexp.MustCompile(`(?is)^` + "`?" + `(\w+)` + "`?" + `\s+(\w+)\s*(\(\s*(\d+)\s*(,\s*(\d+))?\s*\))?(.*)$`)
+)
+
+func parseColDef(def string) (Column, bool) {
+	m := reColDef.FindStringSubmatch(strings.TrimSpace(def))
+	if m == nil {
+		return Column{}, false
+	}
+	c := Column{Name: m[1], Nullable: true}
+	n, _ := strconv.Atoi(m[4])
+	sc, _ := strconv.Atoi(m[6])
+	rest := strings.ToUpper(m[7])
+	typ := strings.ToLower(m[2])
+	c.ColType = typ
+	if m[3] != "" {
+		c.ColType += strings.ReplaceAll(m[3], " ", "")
+	}
+	switch typ {
+	case "tinyint":
+		c.T, c.Bits = TInt, 8
+	case "smallint":
+		c.T, c.Bits = TInt, 16
+	case "int", "integer":
+		c.T, c.Bits = TInt, 32
+		if m[3] == "" {
+			c.ColType = "int(11)"
+		}
+	case "bigint":
+		c.T, c.Bits = TInt, 64
+		if m[3] == "" {
+			c.ColType = "bigint(20)"
+		}
+	case "varchar", "char":
+		c.T, c.Len = TChar, n
+	case "text":
+		c.T, c.DataType = TChar, "text"
+	case "double":
+		c.T = TDouble
+	case "float":
+		c.T = TFloat
+	case "decimal":
+		c.T, c.Len, c.Scale = TDecimal, n, sc
+	case "datetime":
+		c.T, c.Fsp = TDateTime, n
+	case "timestamp":
+		c.T, c.Fsp = TTimestamp, n
+	case "date":
+		c.T = TDate
+	case "blob":
+		c.T, c.DataType = TBin, "blob"
+	default:
+		return Column{}, false
+	}
+	if strings.Contains(rest, "UNSIGNED") {
+		c.Unsigned = true
+		c.ColType += " unsigned"
+	}
+	if strings.Contains(rest, "NOT NULL") {
+		c.Nullable = false
+	}
+	if strings.Contains(rest, "AUTO_INCREMENT") {
+		c.AutoInc = true
+		c.Nullable = false
+	}
+	return c, true
+}
+
+func splitTopLevel(s string) []string {
+	var out []string
+	depth, start := 0, 0
+	for i, ch := range s {
+		switch ch {
+		case '(':
+			depth++
+		case ')':
+			depth--
+		case ',':
+			if depth == 0 {
+				out = append(out, s[start:i])
+				start = i + 1
+			}
+		}
+	}
+	return append(out, s[start:])
+}
+
+func (s *Session) ddlImplicitCommit(je *JournalEntry) {
+	if s.inTx() && s.xaID == "" {
+		je.Committed = append(je.Committed, s.commitTx(s.tx)...)
+		je.ImplicitCommit = true
+		s.releaseLocks(s.tx)
+		s.tx = nil
+	}
+}
+
+func (s *Session) execDDL(q, u string, je *JournalEntry) ([]result, bool) {
+	e := s.e
+	switch {
+	case strings.HasPrefix(u, "CREATE TABLE"):
+		m := reCreateTable.FindStringSubmatch(q)
+		if m == nil {
+			return nil, false
+		}
+		je.Kind, je.Table = "CREATE_TABLE", strings.ToUpper(m[2])
+		s.ddlImplicitCommit(je)
+		if e.tables[strings.ToUpper(m[2])] != nil {
+			if m[1] != "" {
+				return []result{{}}, true
+			}
+			return errResult(errf(1050, "42S01", "Table '%s' already exists", m[2])), true
+		}
+		t := &Table{Name: m[2], rows: map[string][]interface{}{}}
+		var pk []string
+		for _, part := range splitTopLevel(m[3]) {
+			part = strings.TrimSpace(part)
+			up := strings.ToUpper(part)
+			if strings.HasPrefix(up, "PRIMARY KEY") {
+				inner := part[strings.Index(part, "(")+1 : strings.LastIndex(part, ")")]
+				for _, k := range strings.Split(inner, ",") {
+					pk = append(pk, strings.Trim(strings.TrimSpace(k), "`"))
+				}
+				continue
+			}
+			if strings.HasPrefix(up, "KEY ") || strings.HasPrefix(up, "UNIQUE ") || strings.HasPrefix(up, "INDEX ") {
+				continue
+			}
+			c, ok := parseColDef(part)
+			if !ok {
+				return errResult(errf(1064, "42000", "You have an error in your SQL syntax; unsupported column definition '%s'", part)), true
+			}
+			if strings.Contains(up, " PRIMARY KEY") {
+				pk = append(pk, c.Name)
+			}
+			if c.DataType == "" {
+				c.DataType = defaultDataType(&c)
+			}
+			t.Cols = append(t.Cols, c)
+		}
+		for _, k := range pk {
+			i := t.colIndex(k)
+			if i < 0 {
+				return errResult(errf(1072, "42000", "Key column '%s' doesn't exist in table", k)), true
+			}
+			t.Cols[i].Nullable = false
+			t.PK = append(t.PK, i)
+		}
+		e.tables[strings.ToUpper(t.Name)] = t
+		return []result{{}}, true
+	case strings.HasPrefix(u, "DROP TABLE"):
+		m := reDropTable.FindStringSubmatch(q)
+		if m == nil {
+			return nil, false
+		}
+		je.Kind, je.Table = "DROP_TABLE", strings.ToUpper(m[2])
+		s.ddlImplicitCommit(je)
+		if e.tables[strings.ToUpper(m[2])] == nil {
+			if m[1] != "" {
+				return []result{{}}, true
+			}
+			return errResult(errf(1051, "42S02", "Unknown table 'vdb.%s'", m[2])), true
+		}
+		delete(e.tables, strings.ToUpper(m[2]))
+		return []result{{}}, true
+	case strings.HasPrefix(u, "TRUNCATE"):
+		m := reTruncate.FindStringSubmatch(q)
+		if m == nil {
+			return nil, false
+		}
+		je.Kind, je.Table = "TRUNCATE", strings.ToUpper(m[2])
+		s.ddlImplicitCommit(je)
+		t := e.tables[strings.ToUpper(m[2])]
+		if t == nil {
+			return errResult(errf(1146, "42S02", "Table 'vdb.%s' doesn't exist", m[2])), true
+		}
+		for k, row := range t.rows {
+			je.Committed = append(je.Committed, RowChange{Table: t.Name, Key: k, Before: row})
+		}
+		t.rows = map[string][]interface{}{}
+		return []result{{}}, true
+	case strings.HasPrefix(u, "ALTER TABLE"):
+		m := reAlterAdd.FindStringSubmatch(q)
+		if m == nil {
+			return nil, false
+		}
+		je.Kind, je.Table = "ALTER_TABLE", strings.ToUpper(m[1])
+		s.ddlImplicitCommit(je)
+		t := e.tables[strings.ToUpper(m[1])]
+		if t == nil {
+			return errResult(errf(1146, "42S02", "Table 'vdb.%s' doesn't exist", m[1])), true
+		}
+		c, ok := parseColDef(m[3])
+		if !ok {
+			return errResult(errf(1064, "42000", "You have an error in your SQL syntax; unsupported column definition '%s'", m[3])), true
+		}
+		if t.colIndex(c.Name) >= 0 {
+			return errResult(errf(1060, "42S21", "Duplicate column name '%s'", c.Name)), true
+		}
+		c.Nullable = true
+		if c.DataType == "" {
+			c.DataType = defaultDataType(&c)
+		}
+		t.Cols = append(t.Cols, c)
+		for k, row := range t.rows {
+			t.rows[k] = append(row, nil)
+		}
+		return []result{{}}, true
+	}
+	return nil, false
 }
